@@ -9,6 +9,7 @@ impl Parser {
         let mut left = self.bit_xor()?;
 
         while let Some(op) = self.match_binary_op(&[TokenKind::Pipe]) {
+            self.chain_link()?;
             let right = self.bit_xor()?;
             let span = left.span.merge(right.span);
             left = Expr::new(
@@ -28,6 +29,7 @@ impl Parser {
         let mut left = self.bit_and()?;
 
         while let Some(op) = self.match_binary_op(&[TokenKind::Caret]) {
+            self.chain_link()?;
             let right = self.bit_and()?;
             let span = left.span.merge(right.span);
             left = Expr::new(
@@ -47,6 +49,7 @@ impl Parser {
         let mut left = self.equality()?;
 
         while let Some(op) = self.match_binary_op(&[TokenKind::Ampersand]) {
+            self.chain_link()?;
             let right = self.equality()?;
             let span = left.span.merge(right.span);
             left = Expr::new(
@@ -66,6 +69,7 @@ impl Parser {
         let mut left = self.comparison()?;
 
         while let Some(op) = self.match_binary_op(&[TokenKind::EqEq, TokenKind::BangEq]) {
+            self.chain_link()?;
             let right = self.comparison()?;
             let span = left.span.merge(right.span);
             left = Expr::new(
@@ -90,6 +94,7 @@ impl Parser {
             TokenKind::Gt,
             TokenKind::GtEq,
         ]) {
+            self.chain_link()?;
             let right = self.shift()?;
             let span = left.span.merge(right.span);
             left = Expr::new(
@@ -109,6 +114,7 @@ impl Parser {
         let mut left = self.term()?;
 
         while let Some(op) = self.match_binary_op(&[TokenKind::Shl, TokenKind::Shr]) {
+            self.chain_link()?;
             let right = self.term()?;
             let span = left.span.merge(right.span);
             left = Expr::new(
@@ -128,6 +134,7 @@ impl Parser {
         let mut left = self.factor()?;
 
         while let Some(op) = self.match_binary_op(&[TokenKind::Plus, TokenKind::Minus]) {
+            self.chain_link()?;
             let right = self.factor()?;
             let span = left.span.merge(right.span);
             left = Expr::new(
@@ -149,6 +156,7 @@ impl Parser {
         while let Some(op) =
             self.match_binary_op(&[TokenKind::Star, TokenKind::Slash, TokenKind::Percent])
         {
+            self.chain_link()?;
             let right = self.unary()?;
             let span = left.span.merge(right.span);
             left = Expr::new(
